@@ -553,3 +553,88 @@ Proof.
   destruct Ht as (A & B). split; [|rewrite C2; exact B].
   eapply HInvL_ext; [symmetry; exact C1|exact A].
 Qed.
+
+(** [open] *)
+Lemma open_hinv L s g d :
+  HInvL L s g -> Inv s g -> 0 <= d <= 1 ->
+  lookup (sid s.(side) d (get_next d s)) s.(send) = None ->
+  HInvL L (set_send (insert (sid s.(side) d (get_next d s)) None s.(send))
+             (set_next d (get_next d s + 1) s)) g.
+Proof.
+  intros [A B C D] I Hd Ln.
+  pose proof (i_side _ _ I) as Hs. destruct (i_cnt _ _ I d Hd) as (Hn & _).
+  remember (sid (side s) d (get_next d s)) as id eqn:Eid.
+  assert (Hii : id_init id = side s) by (subst id; apply id_init_sid; lia).
+  assert (Hid : id_dir id = d) by (subst id; apply id_dir_sid; lia).
+  assert (Hix : id_index id = get_next d s) by (subst id; apply id_index_sid; lia).
+  assert (Hsd : side (set_send (insert id None (send s)) (set_next d (get_next d s + 1) s)) = side s)
+    by (unfold set_next; destr_if; autorewrite with st; reflexivity).
+  assert (Hsn : send (set_send (insert id None (send s)) (set_next d (get_next d s + 1) s)) = insert id None (send s))
+    by (autorewrite with st; reflexivity).
+  assert (Hun : unacked_data (set_send (insert id None (send s)) (set_next d (get_next d s + 1) s)) = unacked_data s)
+    by (unfold set_next; destr_if; autorewrite with st; reflexivity).
+  assert (Hnx : forall d0, get_next d0 s <= get_next d0 (set_send (insert id None (send s)) (set_next d (get_next d s + 1) s))).
+  { intros d0. unfold get_next, set_next. destr_if; autorewrite with st; lia. }
+  constructor; rewrite ?Hsd, ?Hsn, ?Hun.
+  - intros k x Lk. rewrite lookup_insert in Lk by assumption. destruct (k =? id); [discriminate|].
+    apply A. exact Lk.
+  - intros k i a b fin Hl. destruct (B k i a b fin Hl) as (B1 & B2 & B3).
+    split; [exact B1|]. split.
+    + rewrite lookup_insert by assumption. destruct (i =? id) eqn:E; [|exact B2].
+      exfalso. assert (i = id) by lia. subst i. specialize (B3 Hii). rewrite Hid, Hix in B3. lia.
+    + intros Hi. specialize (B3 Hi). pose proof (Hnx (id_dir i)). lia.
+  - unfold usum. rewrite msum_insert. cbn [ucontrib]. unfold usum in C. lia.
+  - intros Hp k x Lk. rewrite lookup_insert in Lk by assumption. destruct (k =? id); [discriminate|].
+    apply (D Hp k). exact Lk.
+Qed.
+
+(** Taking a frame out of the log (acknowledged or lost). *)
+Lemma hinv_take L L' k fid a b fin s g :
+  log_get k L = Some ((fid, a, b, fin), L') -> HInvL L s g ->
+  (forall x, lookup fid s.(send) = Some (Some x) -> BufOK L' fid x) ->
+  HInvL L' s g.
+Proof.
+  intros G [A B C D] Hf. destruct (log_get_spec _ _ _ _ G) as (Hl & Bl & Cl).
+  constructor; auto.
+  - intros id x Lk. destruct (Z.eq_dec id fid) as [->|Hn]; [apply Hf; exact Lk|].
+    eapply bufok_feq; [eapply feq_take_other; [exact G|congruence]|]. apply A. exact Lk.
+  - intros j i a' b' fin' Hl'. apply (B j i a' b' fin'). apply Bl in Hl'. tauto.
+Qed.
+
+Lemma bufok_take_reset L L' k fid a b fin x :
+  log_get k L = Some ((fid, a, b, fin), L') -> BufOK L fid x -> x.(s_state) = 3 -> BufOK L' fid x.
+Proof.
+  intros G [A B C D F] Hs. destruct (log_get_spec _ _ _ _ G) as (Hl & Bl & Cl).
+  constructor; auto; [|congruence].
+  intros j a' b' fin' Hl'. apply (D j a' b' fin'). apply Bl in Hl'. tauto.
+Qed.
+
+Lemma bufok_lost L L' k id a b fin fp x :
+  log_get k L = Some ((id, a, b, fin), L') -> BufOK L id x ->
+  BufOK L' id (set_s_retx (rs_add a b (s_retx x)) (set_s_fin_pending fp x)).
+Proof.
+  intros G [A B C D F]. destruct (log_get_spec _ _ _ _ G) as (Hl & Bl & Cl).
+  destruct (D _ _ _ _ Hl) as (Fa & Fb).
+  constructor; unfold base in *; autorewrite with st; auto.
+  - intros j a' b' fin' Hl'. apply (D j a' b' fin'). apply Bl in Hl'. tauto.
+  - intros Hs. destruct (F Hs) as [A1 A2 A3 A4 A5 A6 A7 A8 A9 A10].
+    assert (Hdis : forall y, a <= y < b -> ~ covers (s_retx x) y)
+      by (intros y Hy Hc; exact (A8 _ _ _ _ y Hl Hy Hc)).
+    constructor; unfold base in *; autorewrite with st; auto.
+    + unfold rs_add. destruct (a <? b) eqn:E; [|exact A3].
+      apply rs_insert_W; [lia| |exact A3]. apply (A5 _ _ _ _ Hl). lia.
+    + intros y Hc. apply rs_add_covers in Hc. destruct Hc as [Hc|Hc]; [auto|lia].
+    + intros j a' b' fin' Hl'. apply (A5 j a' b' fin'). apply Bl in Hl'. tauto.
+    + intros y Ha Hc. apply rs_add_covers in Hc. destruct Hc as [Hc|Hc]; [eauto|].
+      exact (A7 _ _ _ _ y Hl Hc Ha).
+    + intros j a' b' fin' y Hl' Hy Hc. apply Bl in Hl'. destruct Hl' as (Hl' & Hj).
+      eapply A7; eauto.
+    + intros j a' b' fin' y Hl' Hy Hc. apply Bl in Hl'. destruct Hl' as (Hl' & Hj).
+      apply rs_add_covers in Hc. destruct Hc as [Hc|Hc]; [eapply A8; eauto|].
+      exact (A9 _ _ _ _ _ _ _ _ y Hl' Hl Hj Hy Hc).
+    + intros j j' a1 b1 f1 a2 b2 f2 y H1 H2. apply Bl in H1. apply Bl in H2.
+      destruct H1 as (H1 & _). destruct H2 as (H2 & _). eapply A9; eauto.
+    + rewrite Cl. cbn [fcontrib]. rewrite Z.eqb_refl.
+      assert (Hab : a <= b) by lia.
+      rewrite (rs_add_total (s_retx x) _ a b A3 Hab Hdis). lia.
+Qed.
